@@ -223,7 +223,7 @@ fn build_main(probes_src: Vec<(usize, String, String)>) -> (String, Vec<Probe>) 
 pub fn run(mut ctx: Ctx, which: &str) -> ! {
     let rp: RenderProp = if which == "C08" { cfg_c08() } else { cfg_c07() };
     let n = match ctx.tier {
-        Tier::Quick => 24,
+        Tier::Quick => 40,
         Tier::Thorough => 320,
     };
     let replay_tape: Option<Vec<u32>> = ctx.replay.clone().and_then(|p| {
@@ -260,6 +260,20 @@ pub fn run(mut ctx: Ctx, which: &str) -> ! {
             style_seed,
         });
     }
+    if std::env::var("VERIF_GEN_ONLY").is_ok() {
+        // generator statistics only (no compilation): class counts of what would be compiled
+        let mut tally: BTreeMap<String, u64> = BTreeMap::new();
+        for pkg in &pkgs {
+            for k in &pkg.keys {
+                for c in crate::plan::count_reuse_classes(k) {
+                    *tally.entry(c).or_default() += 1;
+                }
+                *tally.entry("keys".into()).or_default() += 1;
+            }
+        }
+        println!("{}", serde_json::to_string_pretty(&tally).unwrap());
+        std::process::exit(0);
+    }
     ctx.set_extra("packages", json!(pkgs.len()));
     let ws = Path::new(run::WORK_ROOT).join(which).join("probes-ws");
     'outer: for chunk in pkgs.chunks(16) {
@@ -279,6 +293,37 @@ pub fn run(mut ctx: Ctx, which: &str) -> ! {
                 break 'outer;
             }
         }
+        // pass 1: the valid calls alone. Type errors of the negative probes would stop rustc before borrow
+        // checking, so the generated module and the valid calls are first compiled without them: no error at all.
+        let mut broken: BTreeSet<String> = BTreeSet::new();
+        {
+            for pkg in chunk {
+                let positives: Vec<(usize, String, String)> = pkg.probes.iter().filter(|p| p.kind == "positive").map(|p| (p.key_idx, p.kind.clone(), p.code.clone())).collect();
+                let (main, _) = build_main(positives);
+                if let Err(e) = std::fs::write(ws.join(&pkg.name).join("src/main.rs"), main) {
+                    ctx.harness_error(format!("write positive main: {e}"));
+                    break 'outer;
+                }
+            }
+            let (_ok, diags, stderr) = run::check_workspace_diags(&ws);
+            ctx.add_extra_count("cargo_checks", 1);
+            for pkg in chunk {
+                let errs: Vec<String> = diags.iter().filter(|d| d.pkg == pkg.name).map(|d| d.message.clone()).collect();
+                if !errs.is_empty() {
+                    broken.insert(pkg.name.clone());
+                    let f = fail("valid-calls-do-not-compile", json!({"package": pkg.name, "errors": errs, "stderr": stderr, "project": ser::project_to_json(&pkg.project)}));
+                    if ctx.fail("l2-probes", Some(&pkg.tape), &f) {
+                        break 'outer;
+                    }
+                }
+            }
+            for pkg in chunk {
+                if let Err(e) = std::fs::write(ws.join(&pkg.name).join("src/main.rs"), &pkg.main) {
+                    ctx.harness_error(format!("write main: {e}"));
+                    break 'outer;
+                }
+            }
+        }
         let (_ok, diags, stderr) = run::check_workspace_diags(&ws);
         ctx.add_extra_count("cargo_checks", 1);
         let mut by_pkg: BTreeMap<String, Vec<&run::CheckDiag>> = BTreeMap::new();
@@ -286,6 +331,9 @@ pub fn run(mut ctx: Ctx, which: &str) -> ! {
             by_pkg.entry(d.pkg.clone()).or_default().push(d);
         }
         for pkg in chunk {
+            if broken.contains(&pkg.name) {
+                continue;
+            }
             let ds = by_pkg.get(&pkg.name).cloned().unwrap_or_default();
             let mut error_lines: BTreeMap<usize, Vec<String>> = BTreeMap::new();
             let mut unattributed = vec![];
@@ -301,6 +349,21 @@ pub fn run(mut ctx: Ctx, which: &str) -> ! {
             if !unattributed.is_empty() && ds.iter().all(|d| d.lines.is_empty()) {
                 // e.g. the macro itself failed: nothing was type-checked
                 let f = fail("probe-package-did-not-type-check", json!({"package": pkg.name, "errors": unattributed, "stderr": stderr, "project": pj()}));
+                if ctx.fail("l2-probes", Some(&pkg.tape), &f) {
+                    break 'outer;
+                }
+                continue;
+            }
+            // an error whose primary span expands from a line that is no probe (the `load_locales!()` call): the
+            // generated module itself does not compile
+            let probe_lines: BTreeSet<usize> = pkg.probes.iter().map(|p| p.line).collect();
+            let outside: Vec<String> = ds
+                .iter()
+                .filter(|d| !d.primary_lines.is_empty() && d.primary_lines.iter().all(|l| !probe_lines.contains(&(*l as usize))))
+                .map(|d| d.message.clone())
+                .collect();
+            if !outside.is_empty() {
+                let f = fail("generated-module-does-not-compile", json!({"package": pkg.name, "errors": outside, "project": pj()}));
                 if ctx.fail("l2-probes", Some(&pkg.tape), &f) {
                     break 'outer;
                 }
@@ -335,6 +398,7 @@ pub fn run(mut ctx: Ctx, which: &str) -> ! {
             for k in &pkg.keys {
                 if let Some((n, kinds)) = per_key.get(&k.idx) {
                     let mut classes: Vec<String> = kinds.iter().filter(|k| *k != "positive").map(|k| format!("probe:{k}")).collect();
+                    classes.extend(crate::plan::count_reuse_classes(k));
                     classes.sort();
                     classes.dedup();
                     ctx.record(CaseInfo {
@@ -372,7 +436,10 @@ fn cfg_c08() -> RenderProp {
             p_namespaces: 20,
             keys: (4, 7),
             sub_depth: 2,
-            w_kinds: [2, 6, 2, 3, 3, 2, 4],
+            w_kinds: [2, 6, 2, 3, 3, 2, 6],
+            p_fk_counted: 70,
+            p_count_reuse: 80,
+            p_hide_count: 60,
             p_null: 6,
             p_absent: 6,
             p_kind_varies: 45,
@@ -387,15 +454,16 @@ fn cfg_c08() -> RenderProp {
             max_counts: 4,
             ..PlanOpts::default()
         },
-        packages: (24, 320),
+        packages: (40, 320),
         tape_len: 2000,
         nontrivial: |k| k.multi_locale_sig,
         classes: |_| vec![],
         rule: "generated packages whose keys differ per locale in kind and member sets; per key one positive call of td_string! and td! \
                with exactly the union set (must type-check for every locale: the locale is a run-time value) and negative probes: each \
                member omitted in turn (both back-ends), an unknown variable, an unknown component, an unknown sibling key, a wrongly \
-               typed count; `cargo check --message-format=json` once per 16 packages, every error is attributed to the probe line \
-               it expands from; every negative probe must own >=1 error and no positive call may own one. one case = one key; \
+               typed count; per 16 packages `cargo check --message-format=json` runs twice: first on the valid calls alone (no \
+               error of any kind allowed: type errors would hide borrow-check errors of the generated code), then with the \
+               negative probes, where every error is attributed to the probe line it expands from; every negative probe must own >=1 error and no positive call may own one. one case = one key; \
                non-trivial = key to which >=2 locales contribute different member sets; distinct = hash of the resolved values",
         assumptions: &["rustc reports all type errors of a crate in one pass (holds when macro expansion itself succeeds, which the positive calls witness)"],
         min_nontrivial: 5,
@@ -429,7 +497,7 @@ fn cfg_c07() -> RenderProp {
             max_counts: 2,
             ..PlanOpts::default()
         },
-        packages: (24, 320),
+        packages: (40, 320),
         tape_len: 2000,
         nontrivial: |k| k.defaulted_any || k.path.len() >= 2,
         classes: |_| vec![],
